@@ -286,34 +286,39 @@ func TestJSON(t *testing.T) {
 
 // progValue removes from any-objects the content whose round trip the property does not fix
 // (it has no static type to be parsed under): null, integral floats, nested any-objects.
-func progValue(v hs.Value, inAny bool) hs.Value {
+func progValue(v hs.Value, inAny bool) hs.Value { return progValueX(v, inAny, false) }
+
+// progNulls only replaces null inside any-objects (null cannot be passed to `set` in a program).
+func progNulls(v hs.Value) hs.Value { return progValueX(v, false, true) }
+
+func progValueX(v hs.Value, inAny, onlyNull bool) hs.Value {
 	switch x := v.(type) {
 	case hs.NullV:
 		if inAny {
 			return hs.IntV(0)
 		}
 	case hs.FloatV:
-		if inAny && float64(x) == float64(int64(x)) {
+		if inAny && !onlyNull && float64(x) == float64(int64(x)) {
 			return hs.FloatV(float64(int64(x)%1000) + 0.5)
 		}
 	case *hs.ListV:
 		c := &hs.ListV{}
 		for _, e := range x.Elems {
-			c.Elems = append(c.Elems, progValue(e, inAny))
+			c.Elems = append(c.Elems, progValueX(e, inAny, onlyNull))
 		}
 		return c
 	case *hs.ObjV:
-		if inAny {
+		if inAny && !onlyNull {
 			return hs.StrV("nested")
 		}
 		c := hs.NewObj(x.Any)
 		for _, k := range x.Keys {
-			c.Set(k, progValue(x.M[k], x.Any))
+			c.Set(k, progValueX(x.M[k], inAny || x.Any, onlyNull))
 		}
 		return c
 	case hs.OptV:
 		if x.Inner != nil {
-			return hs.OptV{Inner: progValue(x.Inner, inAny)}
+			return hs.OptV{Inner: progValueX(x.Inner, inAny, onlyNull)}
 		}
 	}
 	return v
@@ -347,6 +352,44 @@ func TestJSONProg(t *testing.T) {
 			pk.NonTrivial(fmt.Sprintf("json-prog|%s|%s", ty.Canon(), show(v)), cs)
 		}
 		pk.Judge(rt, cs, checkJSONProg(cs))
+	})
+}
+
+// ---------------------------------------------------------------------------------------------
+// TestEqProg: the == / != operators of programs on both backends (small slice)
+
+func TestEqProg(t *testing.T) {
+	pk.SkipIfReplay(t)
+	rapid.Check(t, func(rt *rapid.T) {
+		ty := genType(rt, rapid.SampledFrom([]int{0, 1, 1, 2, 2}).Draw(rt, "depth"))
+		a := genValue(rt, ty)
+		var b hs.Value
+		kind := "independent"
+		switch rapid.IntRange(0, 5).Draw(rt, "mode") {
+		case 0:
+			b, kind = permuteKeys(a, 1), "permuted"
+		case 1:
+			b = genValue(rt, ty)
+		default:
+			b, kind = mutate(rt, a, ty)
+			if kind == "" {
+				kind = "copy"
+			}
+		}
+		a, b = progNulls(a), progNulls(b)
+		cs := EqProgCase{T: ty, A: hs.WV{V: a}, B: hs.WV{V: b},
+			Prog: px.ProgCase{Modules: map[string]string{"main": buildEqProg(a, b, ty)}, Entry: "main", Limits: sb.DefaultLimits()}}
+		pk.Eval()
+		pk.Extra("programs", 1)
+		pk.Class("eq-prog:pair:" + kind)
+		pk.Class("eq-prog:type:" + ty.K.String())
+		if kind != "independent" && kind != "copy" && kind != "permuted" {
+			pk.Class("near-equal")
+		}
+		if nonTrivialValue(a, ty) {
+			pk.NonTrivial(fmt.Sprintf("eq-prog|%s|%s|%s", ty.Canon(), show(a), show(b)), cs)
+		}
+		pk.Judge(rt, cs, checkEqProg(cs))
 	})
 }
 
